@@ -273,7 +273,7 @@ impl Property for C20 {
     fn replay(&self, case: &Value, stats: &mut Stats) -> Result<CheckResult, String> {
         if let Some(v) = case.get("id").and_then(|v| v.as_u64()) {
             stats.cases += 1;
-            return Ok(check_id(v as u32));
+            return Ok(guarded(|| check_id(v as u32)).unwrap_or_else(|p| fail("id-sweep/panic", p)));
         }
         replay_typed::<String, _>(case, stats, check_string)
     }
